@@ -207,8 +207,10 @@ func (e *Engine) verifyFunc(c *Contract) (rep *FuncReport) {
 			s.addObl(&Obligation{Name: fmt.Sprintf("%s/post.%s", short, clauseNameSplit(en, i, sub, len(subs))), Kind: "post", Func: short, Src: "ensures " + sub.Src, Guard: out.Reach, Formula: f})
 		}
 	}
-	if c.ModGiven {
+	if c.ModGiven && c.Options["assumeframe"] == "" {
 		s.frameObligations(fr, c, out, short)
+	} else if c.Options["assumeframe"] != "" {
+		s.note("ASSUMED (not proved): the frame (`modifies`) of %s - its body contains effects the engine cannot bound; clauses and call-site assertions are proved, the frame is trusted", fn.String())
 	}
 	return
 }
